@@ -50,23 +50,23 @@ Theorem C05_interruptions_never_rolled_back :
 Proof. exact interruptions_exact. Qed.
 Print Assumptions C05_interruptions_never_rolled_back.
 
-(* witness of C05-b (recorded from the implementation): events 1, 2, pause, resume (roll-back to the
-   checkpoint), event 1 re-taken, abort: the RunStop says num_events = 1 although seq_num 2 was emitted *)
-(* exb: {"plan": ["seq", ["m", "open_run", null, [], {}, null], ["m", "checkpoint", null, [], {}, null], ["m", "create", null, [], {"name": "primary"}, null], ["m", "read", 1, [], {}, null], ["m", "save", null, [], {}, null], ["m", "create", null, [], {"name": "primary"}, null], ["m", "read", 1, [], {}, null], ["m", "save", null, [], {}, null], ["m", "null", null, [], {}, null], ["m", "null", null, [], {}, null], ["m", "close_run", null, [], {}, null]], "devs": [["stage"], [], ["pause"], ["stage"]], "inject": [{"at": 10, "req": "pause"}, {"at": 15, "req": "abort"}], "script": ["resume"], "tag": "behind"} *)
-Definition exb_tapes := [(0, [TY {| mid := (Some 0); mcmd := COpenRun; mobj := None; mrun := 0 |}; TY {| mid := (Some 1); mcmd := CCheckpoint; mobj := None; mrun := 0 |}; TY {| mid := (Some 2); mcmd := (CCreate 0); mobj := None; mrun := 0 |}; TY {| mid := (Some 3); mcmd := CRead; mobj := (Some 1); mrun := 0 |}; TY {| mid := (Some 4); mcmd := CSave; mobj := None; mrun := 0 |}; TY {| mid := (Some 5); mcmd := (CCreate 0); mobj := None; mrun := 0 |}; TY {| mid := (Some 6); mcmd := CRead; mobj := (Some 1); mrun := 0 |}; TY {| mid := (Some 7); mcmd := CSave; mobj := None; mrun := 0 |}; TE ERequestAbort])].
+(* witness of C05-b (recorded from the implementation): events 1, 2, 3, pause, resume (roll-back to the
+   checkpoint), abort before anything is re-taken: the RunStop says num_events = 0 although seq_nums 1..3 were emitted *)
+(* exb: {"plan": ["seq", ["m", "open_run", null, [], {}, null], ["m", "checkpoint", null, [], {}, null], ["m", "create", null, [], {"name": "primary"}, null], ["m", "read", 1, [], {}, null], ["m", "save", null, [], {}, null], ["m", "create", null, [], {"name": "primary"}, null], ["m", "read", 1, [], {}, null], ["m", "save", null, [], {}, null], ["m", "create", null, [], {"name": "primary"}, null], ["m", "read", 1, [], {}, null], ["m", "save", null, [], {}, null], ["m", "null", null, [], {}, null], ["m", "null", null, [], {}, null], ["m", "null", null, [], {}, null], ["m", "null", null, [], {}, null], ["m", "close_run", null, [], {}, null]], "devs": [["stage"], [], ["pause"], ["stage"]], "inject": [{"at": 14, "req": "pause"}, {"at": 17, "req": "abort"}], "script": ["resume"], "tag": "behind"} *)
+Definition exb_tapes := [(0, [TY {| mid := (Some 0); mcmd := COpenRun; mobj := None; mrun := 0 |}; TY {| mid := (Some 1); mcmd := CCheckpoint; mobj := None; mrun := 0 |}; TY {| mid := (Some 2); mcmd := (CCreate 0); mobj := None; mrun := 0 |}; TY {| mid := (Some 3); mcmd := CRead; mobj := (Some 1); mrun := 0 |}; TY {| mid := (Some 4); mcmd := CSave; mobj := None; mrun := 0 |}; TY {| mid := (Some 5); mcmd := (CCreate 0); mobj := None; mrun := 0 |}; TY {| mid := (Some 6); mcmd := CRead; mobj := (Some 1); mrun := 0 |}; TY {| mid := (Some 7); mcmd := CSave; mobj := None; mrun := 0 |}; TY {| mid := (Some 8); mcmd := (CCreate 0); mobj := None; mrun := 0 |}; TY {| mid := (Some 9); mcmd := CRead; mobj := (Some 1); mrun := 0 |}; TY {| mid := (Some 10); mcmd := CSave; mobj := None; mrun := 0 |}; TY {| mid := (Some 11); mcmd := CNull; mobj := None; mrun := 0 |}; TE ERequestAbort])].
 Definition exb_ledger := [DVal (0)%Z; DVal (1)%Z; DVal (2)%Z].
 Definition exb_paus := [2].
 Definition exb_stag := [0; 3].
 Definition exb_rec := false.
-Definition exb_evs := [EvMain (ACall 0); EvPermit; EvTask; EvTask; EvTask; EvTask; EvTask; EvCacheDone; EvTask; EvTask; EvTask; EvTask; EvTask; EvReqPause false; EvTask; EvMainDone (ACall 0); EvMain AResume; EvPermit; EvTask; EvTask; EvTask; EvTask; EvReqAbort (RsGiven 1); EvTask; EvTask; EvMainDone AResume].
-Definition exb_obs : list obs := [(OState Idle Running); (OTask WSleep0); (OPlanIn 0 (Send VNone)); (OMsg {| mid := (Some 0); mcmd := COpenRun; mobj := None; mrun := 0 |}); (ODoc (DStart 0)); (OResp (RVal (VUid 0))); (OTask WSleep0); (OPlanIn 0 (Send (VUid 0))); (OMsg {| mid := (Some 1); mcmd := CCheckpoint; mobj := None; mrun := 0 |}); (OResp (RVal VNone)); (OTask WSleep0); (OPlanIn 0 (Send VNone)); (OMsg {| mid := (Some 2); mcmd := (CCreate 0); mobj := None; mrun := 0 |}); (OResp (RVal VNone)); (OTask WSleep0); (OPlanIn 0 (Send VNone)); (OMsg {| mid := (Some 3); mcmd := CRead; mobj := (Some 1); mrun := 0 |}); (ODev 1 MRead); (OTask WFuture); (OResp (RVal (VReading 1 (0)%Z))); (OTask WSleep0); (OPlanIn 0 (Send (VReading 1 (0)%Z))); (OMsg {| mid := (Some 4); mcmd := CSave; mobj := None; mrun := 0 |}); (ODoc (DDescr 0 0 [1])); (ODoc (DEvent 0 0 1 [(1, (0)%Z)])); (OResp (RVal VNone)); (OTask WSleep0); (OPlanIn 0 (Send VNone)); (OMsg {| mid := (Some 5); mcmd := (CCreate 0); mobj := None; mrun := 0 |}); (OResp (RVal VNone)); (OTask WSleep0); (OPlanIn 0 (Send VNone)); (OMsg {| mid := (Some 6); mcmd := CRead; mobj := (Some 1); mrun := 0 |}); (ODev 1 MRead); (OResp (RVal (VReading 1 (1)%Z))); (OTask WSleep0); (OPlanIn 0 (Send (VReading 1 (1)%Z))); (OMsg {| mid := (Some 7); mcmd := CSave; mobj := None; mrun := 0 |}); (ODoc (DEvent 0 0 2 [(1, (1)%Z)])); (OResp (RVal VNone)); (OTask WSleep0); (OState Running Pausing); (OReq true); (OState Pausing Paused); (OTask WFuture); (OOut OutInterrupted Paused false true); (OState Paused Running); (OTask WSleep0); (OMsg {| mid := (Some 2); mcmd := (CCreate 0); mobj := None; mrun := 0 |}); (OResp (RVal VNone)); (OTask WSleep0); (OMsg {| mid := (Some 3); mcmd := CRead; mobj := (Some 1); mrun := 0 |}); (ODev 1 MRead); (OResp (RVal (VReading 1 (2)%Z))); (OTask WSleep0); (OMsg {| mid := (Some 4); mcmd := CSave; mobj := None; mrun := 0 |}); (ODoc (DEvent 0 0 1 [(1, (2)%Z)])); (OResp (RVal VNone)); (OTask WSleep0); (OState Running Aborting); (OReq true); (OPlanIn 0 (Throw ERequestAbort)); (OTask WSleep0); (ODoc (DStop 0 XAbort (RsGiven 1) [(0, 1)])); (OState Aborting Idle); (OTask WReturn); (OOut OutInterrupted Idle false true)].
+Definition exb_evs := [EvMain (ACall 0); EvPermit; EvTask; EvTask; EvTask; EvTask; EvTask; EvCacheDone; EvTask; EvTask; EvTask; EvTask; EvTask; EvTask; EvTask; EvTask; EvTask; EvReqPause false; EvTask; EvMainDone (ACall 0); EvMain AResume; EvPermit; EvTask; EvTask; EvReqAbort (RsGiven 1); EvTask; EvTask; EvMainDone AResume].
+Definition exb_obs : list obs := [(OState Idle Running); (OTask WSleep0); (OPlanIn 0 (Send VNone)); (OMsg {| mid := (Some 0); mcmd := COpenRun; mobj := None; mrun := 0 |}); (ODoc (DStart 0)); (OResp (RVal (VUid 0))); (OTask WSleep0); (OPlanIn 0 (Send (VUid 0))); (OMsg {| mid := (Some 1); mcmd := CCheckpoint; mobj := None; mrun := 0 |}); (OResp (RVal VNone)); (OTask WSleep0); (OPlanIn 0 (Send VNone)); (OMsg {| mid := (Some 2); mcmd := (CCreate 0); mobj := None; mrun := 0 |}); (OResp (RVal VNone)); (OTask WSleep0); (OPlanIn 0 (Send VNone)); (OMsg {| mid := (Some 3); mcmd := CRead; mobj := (Some 1); mrun := 0 |}); (ODev 1 MRead); (OTask WFuture); (OResp (RVal (VReading 1 (0)%Z))); (OTask WSleep0); (OPlanIn 0 (Send (VReading 1 (0)%Z))); (OMsg {| mid := (Some 4); mcmd := CSave; mobj := None; mrun := 0 |}); (ODoc (DDescr 0 0 [1])); (ODoc (DEvent 0 0 1 [(1, (0)%Z)])); (OResp (RVal VNone)); (OTask WSleep0); (OPlanIn 0 (Send VNone)); (OMsg {| mid := (Some 5); mcmd := (CCreate 0); mobj := None; mrun := 0 |}); (OResp (RVal VNone)); (OTask WSleep0); (OPlanIn 0 (Send VNone)); (OMsg {| mid := (Some 6); mcmd := CRead; mobj := (Some 1); mrun := 0 |}); (ODev 1 MRead); (OResp (RVal (VReading 1 (1)%Z))); (OTask WSleep0); (OPlanIn 0 (Send (VReading 1 (1)%Z))); (OMsg {| mid := (Some 7); mcmd := CSave; mobj := None; mrun := 0 |}); (ODoc (DEvent 0 0 2 [(1, (1)%Z)])); (OResp (RVal VNone)); (OTask WSleep0); (OPlanIn 0 (Send VNone)); (OMsg {| mid := (Some 8); mcmd := (CCreate 0); mobj := None; mrun := 0 |}); (OResp (RVal VNone)); (OTask WSleep0); (OPlanIn 0 (Send VNone)); (OMsg {| mid := (Some 9); mcmd := CRead; mobj := (Some 1); mrun := 0 |}); (ODev 1 MRead); (OResp (RVal (VReading 1 (2)%Z))); (OTask WSleep0); (OPlanIn 0 (Send (VReading 1 (2)%Z))); (OMsg {| mid := (Some 10); mcmd := CSave; mobj := None; mrun := 0 |}); (ODoc (DEvent 0 0 3 [(1, (2)%Z)])); (OResp (RVal VNone)); (OTask WSleep0); (OPlanIn 0 (Send VNone)); (OMsg {| mid := (Some 11); mcmd := CNull; mobj := None; mrun := 0 |}); (OResp (RVal VNone)); (OTask WSleep0); (OState Running Pausing); (OReq true); (OState Pausing Paused); (OTask WFuture); (OOut OutInterrupted Paused false true); (OState Paused Running); (OTask WSleep0); (OMsg {| mid := (Some 2); mcmd := (CCreate 0); mobj := None; mrun := 0 |}); (OResp (RVal VNone)); (OTask WSleep0); (OState Running Aborting); (OReq true); (OPlanIn 0 (Throw ERequestAbort)); (OTask WSleep0); (ODoc (DStop 0 XAbort (RsGiven 1) [(0, 0)])); (OState Aborting Idle); (OTask WReturn); (OOut OutInterrupted Idle false true)].
 Example C05_b_refuted :
   let l := model_steps exb_tapes exb_ledger exb_paus exb_stag exb_rec exb_evs in
   check exb_tapes exb_ledger exb_paus exb_stag exb_rec exb_evs exb_obs = true /\
   finding_C05_b exb_rec l /\ miscounted exb_rec l = true /\
   docs_of (flat_map snd l) =
-    [DStart 0; DDescr 0 0 [1]; DEvent 0 0 1 [(1, 0%Z)]; DEvent 0 0 2 [(1, 1%Z)]; DEvent 0 0 1 [(1, 2%Z)];
-     DStop 0 XAbort (RsGiven 1) [(0, 1)]].
+    [DStart 0; DDescr 0 0 [1]; DEvent 0 0 1 [(1, 0%Z)]; DEvent 0 0 2 [(1, 1%Z)]; DEvent 0 0 3 [(1, 2%Z)];
+     DStop 0 XAbort (RsGiven 1) [(0, 0)]].
 Proof. vm_compute. repeat split. Qed.
 
 (* non-vacuity: a schedule with a roll-back that is replayed completely: counts exact, class not entered *)
